@@ -1872,6 +1872,11 @@ namespace bloch::compiler {
     void SemanticAnalyser::visit(EchoStatement& node) {
         if (node.value)
             node.value->accept(*this);
+        auto tinfo = inferTypeInfo(node.value.get());
+        if (node.value && tinfo.className.empty() && tinfo.value == ValueType::Void) {
+            throw BlochError(ErrorCategory::Semantic, node.line, node.column,
+                             "cannot echo the result of a 'void' call");
+        }
     }
 
     void SemanticAnalyser::visit(ResetStatement& node) {
@@ -2070,8 +2075,14 @@ namespace bloch::compiler {
             return;
         }
 
-        if (node.op == "+" && (isStringType(lt) || isStringType(rt)))
+        if (node.op == "+" && (isStringType(lt) || isStringType(rt))) {
+            auto isVoidType = [](const TypeInfo& t) {
+                return t.className.empty() && t.value == ValueType::Void;
+            };
+            if (isVoidType(lt) || isVoidType(rt))
+                errorWithTypes("the result of a 'void' call cannot be concatenated");
             return;
+        }
 
         if (node.op == "+" || node.op == "-" || node.op == "*" || node.op == "/") {
             if (!(isNumericType(lt) && isNumericType(rt))) {
